@@ -5,6 +5,7 @@ import (
 	"encoding/json"
 	"fmt"
 	"reflect"
+	"sort"
 	"strings"
 	"testing"
 
@@ -388,7 +389,92 @@ func jsonTypes() []*MsgType {
 	return out
 }
 
-const ruleC18 = "case = (message type of the corpus for gogo / Google v1 (legacy) / Google v2, plain and fast-marshal; value incl. enums, 64-bit integers, bytes, maps, oneofs, well-known types; the 2^3 marshal option combinations; indent in {\"\", \" \", \"  \", \"\\t\", \" \\t\"}; JSON with/without an injected unknown key x AllowUnknownFields; JSON with/without a required field - the message's own or one of a child, incl. proto2 children of a proto3 message - x AllowPartialMessages (Google v2); 1 in 3 right after a MarshalJSON call that the runtime refuses (out-of-range Timestamp / Duration, also as a later list element; required field missing in a child)); oracle: json.Valid, adapter round trip == original, the OWNING runtime's JSON decoder accepts the output and decodes the original, structural probes for every option, nil => (nil, nil) (untyped nil and typed nil pointers of every corpus package and of the well-known types that implement json.Marshaler themselves), unmarshal into nil => error; non-trivial = message with >= 1 enum / 64-bit / bytes / map field set and >= 1 option set; distinct by case content"
+const ruleC18 = "case = (message type of the corpus for gogo / Google v1 (legacy) / Google v2, plain and fast-marshal; value incl. enums, 64-bit integers, bytes, maps, oneofs, well-known types as fields and - Value (every kind incl. null), Struct, ListValue, Timestamp, wrappers of Google v2 and gogo - as top-level messages; the 2^3 marshal option combinations; indent in {\"\", \" \", \"  \", \"\\t\", \" \\t\"}; JSON with/without an injected unknown key x AllowUnknownFields; JSON with/without a required field - the message's own or one of a child, incl. proto2 children of a proto3 message - x AllowPartialMessages (Google v2); 1 in 3 right after a MarshalJSON call that the runtime refuses (out-of-range Timestamp / Duration, also as a later list element; required field missing in a child)); oracle: json.Valid, adapter round trip == original, the OWNING runtime's JSON decoder accepts the output and decodes the original, structural probes for every option, nil => (nil, nil) (untyped nil and typed nil pointers of every corpus package and of the well-known types that implement json.Marshaler themselves), unmarshal into nil => error; non-trivial = message with >= 1 enum / 64-bit / bytes / map field set and >= 1 option set; distinct by case content"
+
+// ---- well-known types as TOP-LEVEL messages (their JSON form is not an object: null, number, string, array) ----
+
+type wktJSONCase struct {
+	Name   string `json:"name"`
+	Indent string `json:"indent"`
+}
+
+var wktJSONValues = map[string]func() any{
+	"gv2/Value-null":   func() any { return structpb.NewNullValue() },
+	"gv2/Value-number": func() any { return structpb.NewNumberValue(1.5) },
+	"gv2/Value-string": func() any { return structpb.NewStringValue("x") },
+	"gv2/Value-bool":   func() any { return structpb.NewBoolValue(true) },
+	"gv2/Value-list": func() any {
+		return structpb.NewListValue(&structpb.ListValue{Values: []*structpb.Value{structpb.NewNullValue(), structpb.NewNumberValue(2)}})
+	},
+	"gv2/Value-struct": func() any {
+		return structpb.NewStructValue(&structpb.Struct{Fields: map[string]*structpb.Value{"k": structpb.NewNullValue()}})
+	},
+	"gv2/Struct-empty": func() any { return &structpb.Struct{} },
+	"gv2/Struct": func() any {
+		return &structpb.Struct{Fields: map[string]*structpb.Value{"a": structpb.NewNullValue(), "b": structpb.NewNumberValue(1)}}
+	},
+	"gv2/ListValue-empty": func() any { return &structpb.ListValue{} },
+	"gv2/ListValue": func() any {
+		return &structpb.ListValue{Values: []*structpb.Value{structpb.NewNullValue(), structpb.NewStringValue("s")}}
+	},
+	"gv2/Timestamp":      func() any { return &timestamppb.Timestamp{Seconds: 1700000000, Nanos: 5} },
+	"gv2/Timestamp-zero": func() any { return &timestamppb.Timestamp{} },
+	"gv2/StringValue":    func() any { return wrapperspb.String("") },
+	"gv2/Int64Value":     func() any { return wrapperspb.Int64(-9007199254740993) },
+	"gv2/BoolValue":      func() any { return wrapperspb.Bool(false) },
+	"gv2/BytesValue":     func() any { return wrapperspb.Bytes([]byte{0, 0xff}) },
+	"gogo/Value-null":    func() any { return &gogotypes.Value{Kind: &gogotypes.Value_NullValue{}} },
+	"gogo/Value-number":  func() any { return &gogotypes.Value{Kind: &gogotypes.Value_NumberValue{NumberValue: 1.5}} },
+	"gogo/Value-string":  func() any { return &gogotypes.Value{Kind: &gogotypes.Value_StringValue{StringValue: "x"}} },
+	"gogo/Struct": func() any {
+		return &gogotypes.Struct{Fields: map[string]*gogotypes.Value{"a": {Kind: &gogotypes.Value_NullValue{}}, "b": {Kind: &gogotypes.Value_BoolValue{BoolValue: true}}}}
+	},
+	"gogo/ListValue": func() any {
+		return &gogotypes.ListValue{Values: []*gogotypes.Value{{Kind: &gogotypes.Value_NullValue{}}}}
+	},
+	"gogo/Timestamp":   func() any { return &gogotypes.Timestamp{Seconds: 1700000000, Nanos: 5} },
+	"gogo/StringValue": func() any { return &gogotypes.StringValue{Value: ""} },
+	"gogo/Int64Value":  func() any { return &gogotypes.Int64Value{Value: -9007199254740993} },
+	"gogo/BytesValue":  func() any { return &gogotypes.BytesValue{Value: []byte{0, 0xff}} },
+}
+
+func oracleC18WKT(c *wktJSONCase) (fail *ev.Failure) {
+	mk := wktJSONValues[c.Name]
+	if mk == nil {
+		return ev.Failf("C18/replay-type-missing", "unknown well-known case %s", c.Name)
+	}
+	sig := func(kind string) string { return "C18/" + kind + "/wkt:" + c.Name }
+	defer func() {
+		if r := recover(); r != nil {
+			fail = ev.Failf(sig("panic"), "panic: %v", r)
+		}
+	}()
+	rtName := strings.SplitN(c.Name, "/", 2)[0]
+	rt := runtimes[rtName]
+	m := mk()
+	out, err := csproto.JSONMarshaler(m, csproto.JSONIndent(c.Indent)).MarshalJSON()
+	if err != nil {
+		return ev.Failf(sig("marshal-error"), "JSONMarshaler: %v", err)
+	}
+	if !json.Valid(out) {
+		return ev.Failf(sig("invalid-json"), "output is not well-formed JSON: %.200s", out)
+	}
+	back := reflect.New(reflect.TypeOf(m).Elem()).Interface()
+	if err := csproto.JSONUnmarshaler(back).UnmarshalJSON(out); err != nil {
+		return ev.Failf(sig("adapter-rejects-own-output"), "JSONUnmarshaler rejects the adapter's output %.200s: %v", out, err)
+	}
+	if !rt.equal(back, mk()) {
+		return ev.Failf(sig("round-trip-differs"), "JSON %.200s decodes to %v, original %v", out, back, mk())
+	}
+	back2 := reflect.New(reflect.TypeOf(m).Elem()).Interface()
+	if err := runtimeJSONUnmarshal(rtName, out, back2); err != nil {
+		return ev.Failf(sig("runtime-decoder-rejects-output"), "%s's JSON decoder rejects %.200s: %v", rt.name, out, err)
+	}
+	if !rt.equal(back2, mk()) {
+		return ev.Failf(sig("runtime-decoder-differs"), "%s's JSON decoder reads %.200s as %v, original %v", rt.name, out, back2, mk())
+	}
+	return nil
+}
 
 func TestC18(t *testing.T) {
 	rec := ev.New("C18", ruleC18)
@@ -397,6 +483,27 @@ func TestC18(t *testing.T) {
 	defer func() { t.Log(rec.Summary()); fmt.Print(rec.SurveyReport()) }()
 	rec.Eval(1)
 	rec.Check(t, "nilprobe", map[string]any{}, jsonNilProbes())
+	{ // well-known types as top-level messages (exhaustive over a fixed list x indent strings)
+		var names []string
+		for n := range wktJSONValues {
+			names = append(names, n)
+		}
+		sort.Strings(names)
+		shard, shards := ev.Shard()
+		for i, n := range names {
+			if i%shards != shard {
+				continue
+			}
+			for _, ind := range []string{"", "  ", "\t"} {
+				c := &wktJSONCase{Name: n, Indent: ind}
+				rec.Eval(1)
+				rec.NonTrivialEnum(1)
+				rec.Class("well-known-type-at-top-level")
+				rec.Sample("wkt-top-level", c)
+				rec.Check(t, "wktjson", c, oracleC18WKT(c))
+			}
+		}
+	}
 	mine := shardTypes(jsonTypes())
 	if len(mine) == 0 {
 		return
